@@ -130,7 +130,7 @@ pub fn exec(plan: &Plan) -> RunResult {
                 let mi = RefInt::new(neg, m.clone());
                 let route = s.int("route");
                 let built = catch(|| {
-                    let u = crate::scn_c17::build_u(&v, route);
+                    let u = crate::obs::build_u(&v, route);
                     let i = BigInt::from_biguint(if neg { Sign::Minus } else { Sign::Plus }, u.clone());
                     (u, i)
                 });
